@@ -63,7 +63,7 @@ def gen_plan(tape, cfg):
     for _ in range(tape.rint(30, 120, "nops")):
         k = tape.weighted([(10, "build"), (2, "illtyped"), (2, "simplify"), (2, "substitute"), (3, "normalize"),
                            (2, "const"), (2, "eqhash"), (1, "collapse"), (1, "quant_order"), (1, "normalize_clash"),
-                           (1, "builtin_named_sort"), (1, "array_subst"), (1, "pickle")], "op")
+                           (1, "builtin_named_sort"), (1, "array_subst"), (1, "pickle"), (1, "equal_type")], "op")
         o = {"op": k, "client": tape.draw(nclients, "client"), "env": tape.draw(nenv, "env"),
              "i": tape.draw(len(pool), "formula")}
         if k == "build":
@@ -708,6 +708,46 @@ def execute(plan, tape):
                                     (where, na, nb, _s(cp), [str(a_.symbol_type()) for a_ in cp.args()], _s(src),
                                      [str(a_.symbol_type()) for a_ in src.args()]))
                 trace.append(("normalize_clash", "copied"))
+            elif k == "equal_type":
+                # a type given as an equal but distinct object (built directly from the type classes)
+                # denotes the same type: same symbol object, same constant-array object
+                import pysmt.typing as T
+
+                def fresh_type(srt):
+                    if bp.is_bv(srt):
+                        return T._BVType(srt[1])
+                    if bp.is_array(srt):
+                        return T._ArrayType(fresh_type(srt[1]), fresh_type(srt[2]))
+                    if bp.is_fun(srt):
+                        return T._FunctionType(fresh_type(srt[2]), [fresh_type(a) for a in srt[1]])
+                    return bp.to_pysmt_type(srt, env)
+                syms_t = bp.symbols_of(t)
+                for nm in sorted(syms_t):
+                    srt = syms_t[nm]
+                    if not (bp.is_bv(srt) or bp.is_array(srt) or bp.is_fun(srt)):
+                        continue
+                    first = mgr.Symbol(nm, bp.to_pysmt_type(srt, env))
+                    ft = fresh_type(srt)
+                    if ft is first.symbol_type():
+                        continue
+                    again = mgr.Symbol(nm, ft)
+                    register(ei, again, o["client"], "equal_type", step, where)
+                    if again is not first:
+                        raise Violation("C04:one-structure-two-objects",
+                                        "%s: Symbol(%r) requested with an equal but distinct type object gave another object" % (where, nm))
+                    if mgr.get_or_create_symbol(nm, fresh_type(srt)) is not first:
+                        raise Violation("C04:one-structure-two-objects",
+                                        "%s: get_or_create_symbol(%r) with an equal type object gave another object" % (where, nm))
+                    if bp.is_bv(srt):
+                        a1 = mgr.Array(bp.to_pysmt_type(srt, env), mgr.Int(0))
+                        a2 = mgr.Array(fresh_type(srt), mgr.Int(0))
+                        register(ei, a1, o["client"], "equal_type", step, where)
+                        register(ei, a2, o["client"], "equal_type", step, where)
+                        if a1 is not a2:
+                            raise Violation("C04:one-structure-two-objects",
+                                            "%s: constant arrays indexed by equal type objects are different objects" % where)
+                    probe("equal_but_distinct_type_object")
+                trace.append(("equal_type",))
             elif k == "builtin_named_sort":
                 # a user sort that is merely *named* like a built-in sort is a different sort
                 import pysmt.typing as T
